@@ -79,6 +79,8 @@ def real_debiaser(name):
         kw = {}
         if name == "ISIMIP":
             kw = dict(running_window_step_length=31)
+        if name.endswith("-rw"):     # the day-of-year window switched on: the time arguments matter
+            name = name[:-3]; kw = dict(running_window_mode=True, running_window_length=61, running_window_step_length=31)
         return getattr(D, name).from_variable("tas", **kw)
 
 def real_data(r, X, Y, n=(400, 380, 420)):
@@ -97,9 +99,9 @@ def search(res, tier, seed, deep=False):
         seen.add(cls_)
         res.witness(dict(component="Debiaser.apply", statement=stmt, input=inp, observed=obs, expected="grid result == stacked per-location results", **{"class": cls_}))
     shapes = [(1, 3), (2, 1), (2, 2)] if tier == "quick" else [(1, 1), (1, 4), (3, 1), (2, 2), (2, 3)]
-    for name in REAL:
+    for name in REAL + ["LinearScaling-rw", "DeltaChange-rw"]:
         d = real_debiaser(name)
-        for k, (X, Y) in enumerate(shapes if tier != "quick" else shapes[(REAL.index(name)) % 3:][:1] + [(2, 2)]):
+        for k, (X, Y) in enumerate(shapes if tier != "quick" else shapes[(len(name)) % 3:][:1] + [(2, 2)]):
             obs, hist, fut, tk = real_data(r, X, Y)
             np.random.seed(7)
             out, err = G.run_apply(d, obs, hist, fut, **tk)
@@ -107,7 +109,7 @@ def search(res, tier, seed, deep=False):
             res.case(("real", name, X == 1 or Y == 1))
             if out is None:
                 report("exception:" + name, inp, repr(err)[:300], "apply raised on valid input"); continue
-            want_shape = (obs.shape if name == "DeltaChange" else fut.shape)
+            want_shape = (obs.shape if name.startswith("DeltaChange") else fut.shape)
             if out.shape != want_shape or not np.issubdtype(out.dtype, np.floating):
                 report("shape:" + name, inp, [list(out.shape), str(out.dtype)], "output shape/dtype is not that of cm_future (obs for DeltaChange)")
                 continue
@@ -127,6 +129,31 @@ def search(res, tier, seed, deep=False):
                 if outp is None or not np.array_equal(outp, out, equal_nan=True):
                     report("parallel:" + name, dict(inp, nr_processes=nproc), repr(errp)[:200] if outp is None else float(np.nanmax(np.abs(outp - out))),
                            "parallel run differs from the serial run")
+
+    # integer inputs: the result is floating and equals the per-location result on the converted series
+    for name in ["LinearScaling", "QuantileMapping", "DeltaChange"]:
+        d = real_debiaser(name)
+        obs, hist, fut, tk = real_data(r, 2, 2)
+        for which in (["obs", "cm_hist", "cm_future", "all"] if tier != "quick" else [r.choice(["obs", "cm_hist", "cm_future"]), "all"]):
+            args = dict(obs=obs, cm_hist=hist, cm_future=fut)
+            conv = {k: (np.round(v).astype(np.int64) if which in (k, "all") else v) for k, v in args.items()}
+            np.random.seed(7)
+            out, err = G.run_apply(d, conv["obs"], conv["cm_hist"], conv["cm_future"], **tk)
+            inp = dict(debiaser=name, integer_argument=which, seed=seed)
+            res.case(("int-input", name, which))
+            if out is None:
+                report("int-exception:" + name, inp, repr(err)[:300], "apply raised on integer input"); continue
+            if not np.issubdtype(out.dtype, np.floating):
+                report("int-dtype:" + which, inp, str(out.dtype), "apply on integer input did not return a floating array"); continue
+            fl = {k: v.astype(float) for k, v in conv.items()}
+            for (i, j) in [(0, 0), (1, 1)]:
+                np.random.seed(7)
+                with warnings.catch_warnings():
+                    warnings.simplefilter("ignore")
+                    col = d.apply_location(fl["obs"][:, i, j], fl["cm_hist"][:, i, j], fl["cm_future"][:, i, j], **tk)
+                if not np.array_equal(out[:, i, j], col, equal_nan=True):
+                    report("int-cell:" + which, dict(inp, cell=[i, j]), float(np.nanmax(np.abs(out[:, i, j] - col))),
+                           "grid result on integer input differs from apply_location on the float-converted series")
 
 def replay(w):
     return True, "re-run ./check %s (inputs are regenerated from the recorded seed)" % w.get("property")
